@@ -16,10 +16,13 @@ Example equal4_naive_false_strings :
   api_equal4 (B "{""a"":""\/""}") (B "{""a"":""/""}") = Some false.
 Proof. vm_compute. repeat split; reflexivity. Qed.
 
-(* a nil node against the raw text null (legacy equal tests n == nil, not the text) *)
-Example equal4_naive_false_null :
-  node_equal4 NNil (NRaw TNull) = false /\ jeq (aval4 NNil) (aval4 (NRaw TNull)) = true.
-Proof. vm_compute. split; reflexivity. Qed.
+(* a nil node against a node with a nil raw message, or against the raw text null: isNull holds of all
+   three (the former model said false here; the package says true, see V4NullWalk.v) *)
+Example equal4_null_kinds :
+  node_equal4 NNil (NRaw TNull) = true /\ node_equal4 raw_null4 (NRaw TNull) = true /\
+  node_equal4 nil_doc4 (NRaw TNull) = false /\ node_equal4 nil_doc4 (NRaw (TObj [])) = true /\
+  jeq (aval4 NNil) (aval4 (NRaw TNull)) = true.
+Proof. vm_compute. repeat split; reflexivity. Qed.
 
 (* member NAMES are compared decoded: escapes in names are harmless *)
 Example equal4_names_decoded : api_equal4 (B "{""\/"":1}") (B "{""/"":1}") = Some true.
@@ -99,7 +102,7 @@ Proof.
   split; [intro Hp; apply nplain_child; auto | apply nclean_child].
 Qed.
 
-Lemma shape4_ok pl n : goodp pl n -> is_null4 n = false -> shape_ok4 pl n (shape4 n).
+Lemma shape4_ok pl n : goodp pl n -> null4 n = false -> shape_ok4 pl n (shape4 n).
 Proof.
   intros [W [L [P C]]] NN. destruct n as [|t|keys obj|ns]; try discriminate.
   - apply nwf4_raw in W. unfold nlit in L. unfold nplain in P.
@@ -125,7 +128,7 @@ Proof.
       * apply goodp_child; [apply (F _ Hin) | apply (L _ Hin) |].
         intro Hp. specialize (P Hp). simpl in P. rewrite forallb_forall in P. apply (P _ Hin).
       * rewrite nsize_child. simpl. pose proof (fold_tsize_in ms (k0, t0) Hin). simpl in *. lia.
-  - apply nwf4_doc in W as [No W]. apply nlit_doc in L. apply nclean_doc in C.
+  - apply nwf4_doc in W as [_ [No W]]. apply nlit_doc in L. apply nclean_doc in C.
     cbn [shape4]. apply Sh4Doc; auto.
     intros k v Hin. unfold nodes_wf4, nodes_clean in *. rewrite Forall_forall in W, L, C.
     split; [split; [apply (W _ Hin) | split; [apply (L _ Hin) | split; [|apply (C _ Hin)]]]|].
@@ -158,16 +161,17 @@ Proof.
     (rewrite <- (leaf_equal_spec _ _ Ha Hb); reflexivity).
 Qed.
 
-Lemma is_null4_onull n : nclean n = true -> is_null4 n = onull (aval4 n).
+Lemma null4_onull n : nwf4 n -> null4 n = onull (aval4 n).
 Proof.
-  destruct n as [|t|keys obj|ns]; intro C; try reflexivity.
-  destruct t; try reflexivity. discriminate.
+  destruct n as [|t|keys obj|ns]; intro W; try reflexivity.
+  - destruct t; reflexivity.
+  - apply nwf4_doc in W as [-> _]. reflexivity.
 Qed.
 
 (* ---- the theorem ---- *)
 Lemma equal4_unfold f n o :
   equal4 (S f) n o =
-  if is_null4 n || is_null4 o then is_null4 n && is_null4 o else
+  if null4 n || null4 o then null4 n && null4 o else
   match shape4 n, shape4 o with
   | SLeaf a, SLeaf b => bseq (print false a) (print false b)
   | SLeaf _, _ => false
@@ -179,7 +183,7 @@ Lemma equal4_unfold f n o :
   | SAry _, _ => false
   end.
 Proof.
-  cbn [equal4]. destruct (is_null4 n || is_null4 o); auto.
+  cbn [equal4]. destruct (null4 n || null4 o); auto.
   destruct (shape4 n), (shape4 o); auto. f_equal.
   revert ns0. induction ns as [|x l IH]; intros [|y l']; simpl; auto. now rewrite IH.
 Qed.
@@ -191,14 +195,14 @@ Proof.
   induction fuel as [|f IH]; intros n o Hf Gn Go.
   { destruct n; simpl in Hf; try lia; pose proof (tsize_pos t); lia. }
   rewrite equal4_unfold.
-  rewrite (is_null4_onull n) by apply Gn. rewrite (is_null4_onull o) by apply Go.
+  rewrite (null4_onull n) by apply Gn. rewrite (null4_onull o) by apply Go.
   destruct (onull (aval4 n)) eqn:Nn.
   { destruct (aval4 n); try discriminate. cbn [orb andb]. symmetry. apply jeq_null_l. }
   destruct (onull (aval4 o)) eqn:No.
   { destruct (aval4 o); try discriminate. cbn [orb andb]. rewrite jeq_null_r. symmetry. exact Nn. }
   cbn [orb].
-  assert (NNn : is_null4 n = false) by (rewrite is_null4_onull by apply Gn; exact Nn).
-  assert (NNo : is_null4 o = false) by (rewrite is_null4_onull by apply Go; exact No).
+  assert (NNn : null4 n = false) by (rewrite null4_onull by apply Gn; exact Nn).
+  assert (NNo : null4 o = false) by (rewrite null4_onull by apply Go; exact No).
   pose proof (shape4_ok true n Gn NNn) as Sn. pose proof (shape4_ok true o Go NNo) as So.
   inversion Sn as [n1 a Ea La Pa Eq1|n1 m Ea Nm Cm Eq1|n1 l Ea Cl Eq1]; subst n1;
     inversion So as [o1 b Eb Lb Pb Eq2|o1 m' Eb Nm' Cm' Eq2|o1 l' Eb Cl' Eq2]; subst o1;
@@ -280,14 +284,14 @@ Theorem equal4_sound : forall fuel n o,
 Proof.
   induction fuel as [|f IH]; intros n o Gn Go; [intro Hx; discriminate Hx|].
   rewrite equal4_unfold.
-  rewrite (is_null4_onull n) by apply Gn. rewrite (is_null4_onull o) by apply Go.
+  rewrite (null4_onull n) by apply Gn. rewrite (null4_onull o) by apply Go.
   destruct (onull (aval4 n)) eqn:Nn.
   { destruct (aval4 n); try discriminate. cbn [orb andb]. destruct (aval4 o); auto. }
   destruct (onull (aval4 o)) eqn:No.
   { cbn [orb andb]. intro Hx; discriminate Hx. }
   cbn [orb].
-  assert (NNn : is_null4 n = false) by (rewrite is_null4_onull by apply Gn; exact Nn).
-  assert (NNo : is_null4 o = false) by (rewrite is_null4_onull by apply Go; exact No).
+  assert (NNn : null4 n = false) by (rewrite null4_onull by apply Gn; exact Nn).
+  assert (NNo : null4 o = false) by (rewrite null4_onull by apply Go; exact No).
   pose proof (shape4_ok false n Gn NNn) as Sn. pose proof (shape4_ok false o Go NNo) as So.
   inversion Sn as [n1 a Ea La Pa Eq1|n1 m Ea Nm Cm Eq1|n1 l Ea Cl Eq1]; subst n1;
     inversion So as [o1 b Eb Lb Pb Eq2|o1 m' Eb Nm' Cm' Eq2|o1 l' Eb Cl' Eq2]; subst o1;
@@ -332,16 +336,14 @@ Proof. intros Gn Go. unfold node_equal4. apply equal4_sound; auto. Qed.
 (* the raw text null at the root (below the root a null member is a nil node) *)
 Lemma node_equal4_null_l tb : tlit tb = true -> node_equal4 (NRaw TNull) (NRaw tb) = jeq ONull (den tb).
 Proof.
-  intro L. unfold node_equal4. cbn [nsize tsize]. rewrite Nat.add_1_l. rewrite equal4_unfold. cbn [is_null4 orb shape4].
-  destruct tb; try reflexivity. cbn [print den jeq tlit] in *.
-  apply (lit_not _ _ _ L); [discriminate | reflexivity].
+  intros _. unfold node_equal4. cbn [nsize tsize]. rewrite Nat.add_1_l. rewrite equal4_unfold.
+  destruct tb; reflexivity.
 Qed.
 
 Lemma node_equal4_null_r ta : tlit ta = true -> node_equal4 (NRaw ta) (NRaw TNull) = jeq (den ta) ONull.
 Proof.
-  intro L. unfold node_equal4. cbn [nsize tsize]. rewrite Nat.add_1_r. rewrite equal4_unfold. cbn [is_null4 orb shape4].
-  destruct ta; try reflexivity. cbn [print den jeq tlit] in *.
-  apply (lit_not _ _ _ L); [discriminate | reflexivity].
+  intros _. unfold node_equal4. cbn [nsize tsize]. rewrite Nat.add_1_r. rewrite equal4_unfold.
+  destruct ta; reflexivity.
 Qed.
 
 Lemma good4_raw t : t <> TNull -> tnodup t = true -> tlit t = true -> tplain t = true -> good4 (NRaw t).
